@@ -4,6 +4,8 @@
 -/
 import Stevia.Proofs.TreeState
 import Stevia.Proofs.GenTreeRefine32
+import Stevia.Proofs.GenTreeStep32
+import Stevia.Proofs.GenTreeStep8
 import Stevia.Proofs.GenTreeRefine8
 
 namespace Stevia.C01
@@ -161,5 +163,35 @@ theorem translated_queries_u8 (kd : α) (vd : β) (s : Tree α β) (h : Tree.Rea
   have hi := Tree.reach_inv h
   ⟨Gen8.find_refines kd vd s hi k, Gen8.contains_refines kd vd s hi k, Gen8.lowest_refines kd vd s hi,
    rfl, rfl, Gen8.get_mut_refines kd vd s hi k v⟩
+
+/-- `avl_tree.rs`, whole histories: `initialize(cap)` on a zero-filled buffer of `n` records followed by *any* history of
+    insertions, removals, `get_mut` + writes, re-openings and buffer extensions (each through a fresh handle, as the
+    crate is used) — the translated source answers `some …` at every step and ends in exactly the register layout of
+    the functional model's state after the same history. With `refines_from` this is: for every history the code as
+    written answers like the capacity-bounded reference map. -/
+theorem translated_history_u32 (kd : α) (vd : β) (n cap : Nat) (h1 : cap ≤ n) (h2 : n < 4294967295) (s' : Tree α β)
+    (ops : List (TreeOp α β)) (hs : Tree.Steps cfgU32 (Tree.init n cap) ops s') :
+    Gen32.runImg (Imp.dflt kd vd)
+      (Gen32.initialize_tree (Imp.dflt kd vd) ((Tree.zero n : Tree α β).image cfgU32 kd vd) cap) ops
+      = some (s'.image cfgU32 kd vd) :=
+  Gen32.run_from_zero kd vd n cap h1 h2 s' ops hs
+
+/-- `u8_avl_tree.rs`, whole histories: `initialize(cap)` on a zero-filled buffer of `n` records followed by *any* history of
+    insertions, removals, `get_mut` + writes, re-openings and buffer extensions (each through a fresh handle, as the
+    crate is used) — the translated source answers `some …` at every step and ends in exactly the register layout of
+    the functional model's state after the same history. With `refines_from` this is: for every history the code as
+    written answers like the capacity-bounded reference map. -/
+theorem translated_history_u8 (kd : α) (vd : β) (n cap : Nat) (h1 : cap ≤ n) (h2 : n ≤ 255) (s' : Tree α β)
+    (ops : List (TreeOp α β)) (hs : Tree.Steps cfgU8 (Tree.init n cap) ops s') :
+    Gen8.runImg (Imp.dflt kd vd)
+      (Gen8.initialize_tree (Imp.dflt kd vd) ((Tree.zero n : Tree α β).image cfgU8 kd vd) cap) ops
+      = some (s'.image cfgU8 kd vd) :=
+  Gen8.run_from_zero kd vd n cap h1 h2 s' ops hs
+
+/-- Non-vacuity of the history theorems: a concrete history (insert, insert, remove, re-open, insert). -/
+example : ∃ s', Tree.Steps cfgU8 (Tree.init 2 2 : Tree Nat Nat)
+    [TreeOp.insert 7 70, TreeOp.insert 5 50, TreeOp.remove 7, TreeOp.reopen, TreeOp.insert 9 90] s' :=
+  ⟨_, .cons _ trivial rfl (.cons _ trivial rfl (.cons _ trivial rfl (.cons _ trivial rfl
+    (.cons _ trivial rfl .nil))))⟩
 
 end Stevia.C01
